@@ -626,13 +626,127 @@ func (c *Ctx) fixedWidthModelFields() map[string]int {
 	return out
 }
 
-// lenChecked: at instruction `at` of fn the byte slice v is known to have length w — a branch on `len(v) != w` / `== w` whose
-// ok-edge dominates `at` — or v is a parameter and every call site passes a value for which this holds at the call.
+// lenChecked: at instruction `at` of fn the byte slice v is known to have length w. v is described as an access path (a base
+// value and a chain of struct fields read from it); the fact is established by
+//  (1) a branch on `len(path) != w` / `== w` whose ok-edge dominates `at`;
+//  (2) a module helper called with the base whose "accepted" outcome (nil error / true) dominates `at` and inside which the fact
+//      holds at every return that can report acceptance;
+//  (3) the base being a parameter and the fact holding at every call site for the argument;
+//  (4) the base being a local struct whose field was stored once, from a value for which the fact holds.
 func lenChecked(g *CallGraph, rev map[*ssa.Function][]cgIn, fn *ssa.Function, v ssa.Value, at ssa.Instruction, w int, depth int) bool {
-	if depth > 4 {
+	base, path := accessPath(v)
+	q := &lenQ{g: g, rev: rev, w: w}
+	return q.known(fn, base, path, at, depth)
+}
+
+type lenQ struct {
+	g   *CallGraph
+	rev map[*ssa.Function][]cgIn
+	w   int
+}
+
+// accessPath splits a value into the base it is read from and the chain of struct fields followed.
+func accessPath(v ssa.Value) (ssa.Value, []int) {
+	var path []int
+	for i := 0; i < 6; i++ {
+		switch x := v.(type) {
+		case *ssa.UnOp:
+			if x.Op == token.MUL {
+				if fa, ok := x.X.(*ssa.FieldAddr); ok {
+					path = append([]int{fa.Field}, path...)
+					v = fa.X
+					continue
+				}
+			}
+		case *ssa.Field:
+			path = append([]int{x.Field}, path...)
+			v = x.X
+			continue
+		}
+		break
+	}
+	return v, path
+}
+
+func samePath(a, b []int) bool {
+	if len(a) != len(b) {
 		return false
 	}
-	cv := canon(v)
+	for i := range a {
+		if a[i] != b[i] {
+			return false
+		}
+	}
+	return true
+}
+
+func (q *lenQ) is(x ssa.Value, base ssa.Value, path []int) bool {
+	b2, p2 := accessPath(x)
+	return samePath(p2, path) && canon(b2) == canon(base)
+}
+
+func domAt(b *ssa.BasicBlock, at ssa.Instruction) bool {
+	return len(b.Preds) == 1 && (b == at.Block() || b.Dominates(at.Block()))
+}
+
+func (q *lenQ) known(fn *ssa.Function, base ssa.Value, path []int, at ssa.Instruction, depth int) bool {
+	if depth > 5 || fn == nil || at == nil {
+		return false
+	}
+	isW := func(x ssa.Value) bool {
+		k, ok := x.(*ssa.Const)
+		return ok && k.Value != nil && k.Value.ExactString() == fmt.Sprint(q.w)
+	}
+	isNil := func(x ssa.Value) bool { k, ok := x.(*ssa.Const); return ok && k.Value == nil }
+	isLenOf := func(x ssa.Value) bool {
+		call, ok := x.(*ssa.Call)
+		if !ok {
+			return false
+		}
+		bi, ok := call.Common().Value.(*ssa.Builtin)
+		return ok && bi.Name() == "len" && len(call.Common().Args) == 1 && q.is(call.Common().Args[0], base, path)
+	}
+	// helperAccepts: call hands the base to a module helper inside which the fact holds wherever it can report acceptance
+	helperAccepts := func(call *ssa.Call, accepted func(r *ssa.Return) bool) bool {
+		sc := call.Common().StaticCallee()
+		if sc == nil || !isModuleFn(sc) {
+			return false
+		}
+		for i, a := range call.Common().Args {
+			if canon(a) != canon(base) || i >= len(sc.Params) {
+				continue
+			}
+			all, any := true, false
+			for _, r := range returnsOf(sc) {
+				if !accepted(r) {
+					continue
+				}
+				any = true
+				if !q.known(sc, sc.Params[i], path, r, depth+1) {
+					all = false
+				}
+			}
+			if any && all {
+				return true
+			}
+		}
+		return false
+	}
+	mayBeNil := func(r *ssa.Return) bool {
+		if len(r.Results) == 0 {
+			return false
+		}
+		return !neverNil(r.Results[len(r.Results)-1], 0)
+	}
+	mayBeTrue := func(r *ssa.Return) bool {
+		if len(r.Results) != 1 {
+			return false
+		}
+		if k, ok := r.Results[0].(*ssa.Const); ok && k.Value != nil {
+			return k.Value.ExactString() == "true"
+		}
+		return true
+	}
 	for _, b := range fn.Blocks {
 		if len(b.Instrs) == 0 {
 			continue
@@ -641,42 +755,82 @@ func lenChecked(g *CallGraph, rev map[*ssa.Function][]cgIn, fn *ssa.Function, v 
 		if !ok {
 			continue
 		}
-		cmp, ok := iff.Cond.(*ssa.BinOp)
-		if !ok || (cmp.Op != token.NEQ && cmp.Op != token.EQL) {
-			continue
-		}
-		isLenOfV := func(x ssa.Value) bool {
-			call, ok := x.(*ssa.Call)
-			if !ok {
-				return false
+		switch cond := iff.Cond.(type) {
+		case *ssa.BinOp:
+			if cond.Op != token.NEQ && cond.Op != token.EQL {
+				continue
 			}
-			bi, ok := call.Common().Value.(*ssa.Builtin)
-			return ok && bi.Name() == "len" && len(call.Common().Args) == 1 && canon(call.Common().Args[0]) == cv
-		}
-		isW := func(x ssa.Value) bool {
-			k, ok := x.(*ssa.Const)
-			return ok && k.Value != nil && k.Value.ExactString() == fmt.Sprint(w)
-		}
-		if !((isLenOfV(cmp.X) && isW(cmp.Y)) || (isLenOfV(cmp.Y) && isW(cmp.X))) {
-			continue
-		}
-		okSucc := b.Succs[1]
-		if cmp.Op == token.EQL {
-			okSucc = b.Succs[0]
-		}
-		if len(okSucc.Preds) == 1 && (okSucc == at.Block() || okSucc.Dominates(at.Block())) {
-			return true
+			okSucc := b.Succs[1]
+			if cond.Op == token.EQL {
+				okSucc = b.Succs[0]
+			}
+			// (1)
+			if (isLenOf(cond.X) && isW(cond.Y)) || (isLenOf(cond.Y) && isW(cond.X)) {
+				if domAt(okSucc, at) {
+					return true
+				}
+				continue
+			}
+			// (2) err := helper(base); err != nil → reject
+			var tested ssa.Value
+			if isNil(cond.Y) {
+				tested = cond.X
+			} else if isNil(cond.X) {
+				tested = cond.Y
+			}
+			if tested == nil {
+				continue
+			}
+			nilSucc := b.Succs[1]
+			if cond.Op == token.EQL {
+				nilSucc = b.Succs[0]
+			}
+			if ex, ok := tested.(*ssa.Extract); ok {
+				tested = ex.Tuple
+			}
+			if call, ok := tested.(*ssa.Call); ok && domAt(nilSucc, at) && helperAccepts(call, mayBeNil) {
+				return true
+			}
+		case *ssa.Call:
+			// (2) if helper(base) { … }
+			if _, isBool := cond.Type().Underlying().(*types.Basic); isBool && domAt(b.Succs[0], at) && helperAccepts(cond, mayBeTrue) {
+				return true
+			}
+		case *ssa.UnOp:
+			if call, ok := cond.X.(*ssa.Call); ok && cond.Op == token.NOT && domAt(b.Succs[1], at) && helperAccepts(call, mayBeTrue) {
+				return true
+			}
 		}
 	}
-	if p, ok := v.(*ssa.Parameter); ok {
+	// (4) a local struct: the field was stored once, before `at`, from a value for which the fact holds
+	if al, ok := canon(base).(*ssa.Alloc); ok && len(path) > 0 && al.Referrers() != nil {
+		var stores []*ssa.Store
+		for _, r := range *al.Referrers() {
+			if fa, ok := r.(*ssa.FieldAddr); ok && fa.Field == path[0] && fa.Referrers() != nil {
+				for _, rr := range *fa.Referrers() {
+					if st, ok := rr.(*ssa.Store); ok && st.Addr == ssa.Value(fa) {
+						stores = append(stores, st)
+					}
+				}
+			}
+		}
+		if len(stores) == 1 {
+			vb, vp := accessPath(stores[0].Val)
+			if q.known(fn, vb, append(vp, path[1:]...), at, depth+1) {
+				return true
+			}
+		}
+	}
+	// (3)
+	if p, ok := base.(*ssa.Parameter); ok {
 		idx := -1
-		for i, q := range fn.Params {
-			if q == p {
+		for i, pp := range fn.Params {
+			if pp == p {
 				idx = i
 			}
 		}
 		n := 0
-		for _, in := range rev[fn] {
+		for _, in := range q.rev[fn] {
 			site := in.edge.Site
 			if site == nil || in.edge.Fallback || idx < 0 {
 				continue
@@ -690,7 +844,8 @@ func lenChecked(g *CallGraph, rev map[*ssa.Function][]cgIn, fn *ssa.Function, v 
 				continue
 			}
 			n++
-			if !lenChecked(g, rev, in.caller, args[ai], site.(ssa.Instruction), w, depth+1) {
+			ab, ap := accessPath(args[ai])
+			if !q.known(in.caller, ab, append(ap, path...), site.(ssa.Instruction), depth+1) {
 				return false
 			}
 		}
@@ -837,4 +992,45 @@ func helperLoadsCell(tested ssa.Value, addr ssa.Value) bool {
 		loads++
 	}
 	return loads > 0
+}
+
+// neverNil: an interface value that cannot be nil — a concrete value boxed into it, or the result of a constructor every return of
+// which is such a value (fmt.Errorf / errors.New included).
+func neverNil(v ssa.Value, depth int) bool {
+	if depth > 4 {
+		return false
+	}
+	switch x := v.(type) {
+	case *ssa.MakeInterface:
+		return true
+	case *ssa.ChangeInterface:
+		return neverNil(x.X, depth+1)
+	case *ssa.Phi:
+		for _, e := range x.Edges {
+			if !neverNil(e, depth+1) {
+				return false
+			}
+		}
+		return len(x.Edges) > 0
+	case *ssa.Call:
+		sc := x.Common().StaticCallee()
+		if sc == nil {
+			return false
+		}
+		switch sc.String() {
+		case "fmt.Errorf", "errors.New":
+			return true
+		}
+		if !isModuleFn(sc) {
+			return false
+		}
+		rets := returnsOf(sc)
+		for _, r := range rets {
+			if len(r.Results) != 1 || !neverNil(r.Results[0], depth+1) {
+				return false
+			}
+		}
+		return len(rets) > 0
+	}
+	return false
 }
